@@ -102,8 +102,16 @@ def run_model(sc, active, thetas=(20., 40.)):
     from smrt import make_model, sensor_list
     sp, atm = scenes.build(sc)
     m = make_model(sc["emmodel"], "dort", rtsolver_options=dict(n_max_stream=sc["nmax"]))
-    sensor = sensor_list.active(sc["frequency"], list(thetas)) if active else sensor_list.passive(sc["frequency"], list(thetas))
-    return m.run(sensor, sp)
+    freq = sc["frequency"]
+    if sc.get("int_frequency") and float(freq) == int(freq):
+        freq = [int(freq), int(freq) + 1000000000]   # frequencies given as integers (e.g. [37_000_000_000, 38_000_000_000]); the first is read
+    sensor = sensor_list.active(freq, list(thetas)) if active else sensor_list.passive(freq, list(thetas))
+    res = m.run(sensor, sp)
+    if isinstance(freq, list):
+        from smrt.core.result import PassiveResult, ActiveResult
+        res = type(res)(res.data.sel(frequency=freq[0], drop=True), other_data={k: v.sel(frequency=freq[0], drop=True) if "frequency" in getattr(v, "dims", ()) else v
+                                                                                 for k, v in res.other_data.items()})
+    return res
 
 
 def check_split(sc, active, splits):
@@ -121,9 +129,62 @@ def check_split(sc, active, splits):
     return (dev, "<= 1e-8 K") if not dev <= 1e-8 else None
 
 
+def check_split_operators(sc, frac, active=False):
+    """the top layer cut in two with the `layer + snowpack` idiom of the API (a copy of the top layer with part of its thickness put on
+    top of the medium, the rest left in place): same result as the unsplit medium - substrate, interfaces and everything else kept"""
+    import copy
+    from smrt import make_model, sensor_list
+    from smrt.core.interface import make_interface
+    base = run_model(sc, active)
+    sp, atm = scenes.build(sc)
+    top = copy.deepcopy(sp.layers[0])
+    d = float(top.thickness)
+    top.thickness = d * frac
+    sp.layers[0].thickness = d - d * frac
+    new = top + sp
+    m = make_model(sc["emmodel"], "dort", rtsolver_options=dict(n_max_stream=sc["nmax"]))
+    sensor = sensor_list.active(sc["frequency"], [20., 40.]) if active else sensor_list.passive(sc["frequency"], [20., 40.])
+    tw = m.run(sensor, new)
+    if len(new.layers) != len(sc["thickness"]) + 1:
+        return (float(len(new.layers)), f"{len(sc['thickness']) + 1} layers")
+    if active:
+        dev = float(max(np.abs(np.asarray(base.sigmaVV_dB()) - np.asarray(tw.sigmaVV_dB())).max(), np.abs(np.asarray(base.sigmaHH_dB()) - np.asarray(tw.sigmaHH_dB())).max()))
+        return (dev, "<= 0.05 dB") if not dev <= 0.05 else None
+    dev = float(np.abs(np.asarray(base.data.values) - np.asarray(tw.data.values)).max())
+    return (dev, "<= 1e-8 K") if not dev <= 1e-8 else None
+
+
 def oracle(ctx, hints, effort):
     rng = ctx.np
     findings, evals = {}, 0
+    for it in range(2 if effort == "routine" else 10):
+        sc = scenes.random_scene(rng, lossless=False, microstructure="exponential", max_layers=3, atmosphere=False, substrate="flat", thick=(0.05, 0.5),
+                                 frequency=float(rng.choice([10.65e9, 18.7e9])))
+        sc["emmodel"], sc["nmax"] = "iba", 16
+        frac = round(float(rng.uniform(0.1, 0.9)), 3)
+        try:
+            evals += 2
+            r = check_split_operators(sc, frac, active=False)
+        except AssertionError:
+            continue
+        if r is not None:
+            findings.setdefault("passive:split-operators", Finding("passive:split-operators", f"cutting the top layer at {frac} with `layer + snowpack` changes "
+                                                                   f"the result by {r[0]:.3g}", {"kind": "operators", "scene": sc, "frac": frac}, r[0], r[1]))
+    # a millimetre crust cut a twentieth from its top: sub-millimetre sublayers are layers too
+    for it in range(1 if effort == "routine" else 4):
+        sc = scenes.random_scene(rng, nlayer=3, lossless=False, microstructure="exponential", atmosphere=False, substrate="flat", frequency=36.5e9)
+        sc["thickness"] = [round(float(rng.uniform(0.05, 0.3)), 3), 1e-3, round(float(rng.uniform(0.1, 0.5)), 3)]
+        sc["density"] = [250.0, 800.0, 300.0]
+        sc["emmodel"], sc["nmax"] = "iba", 16
+        splits = [(1, 0.05, "transparent")]
+        try:
+            evals += 2
+            r = check_split(sc, False, splits)
+        except AssertionError:
+            continue
+        if r is not None:
+            findings.setdefault("passive:split:thin", Finding("passive:split:thin", f"splitting a 1 mm crust {splits} changes the result by {r[0]:.3g}",
+                                                              {"scene": sc, "active": False, "splits": splits}, r[0], r[1]))
     for it in range(6 if effort == "routine" else 60):
         em, ms = pC01.PAIRINGS[it % (2 if effort == "routine" else len(pC01.PAIRINGS))]
         active = it % 3 == 2 and em != "nonscattering"
@@ -179,5 +240,8 @@ def oracle(ctx, hints, effort):
 
 
 def replay(inp, rp=None):
+    if inp.get("kind") == "operators":
+        r = check_split_operators(inp["scene"], inp["frac"])
+        return Finding("?", "split with operators changes result", inp, r[0], r[1]) if r else None
     r = check_split(inp["scene"], inp["active"], [tuple(s) for s in inp["splits"]])
     return Finding("?", "split changes result", inp, r[0], r[1]) if r else None
